@@ -36,13 +36,13 @@ TREE = {"a.txt": "A-file", "index.html": "ROOT-INDEX", "x.html": "X-HTML", "..na
         "dir2.html": "DIR2-SIBLING-PAGE", "dir.html": "DIR-SIBLING-PAGE",  # a directory and a page of the same name: the directory URL redirects
         "cafe\u0301.txt": "DECOMPOSED-NAME", "caf\u00e9.txt": "COMPOSED-NAME", "\u6587\u4ef6.txt": "CJK-NAME", "\u00c7a.html": "C-CEDILLA-PAGE",
         "back\\slash.txt": "BACKSLASH-NAME", "dir\\b.html": "BACKSLASH-PAGE",  # a backslash is an ordinary character of a file name here
-        "empty.txt": "", "empty.html": "", "one.txt": "1", "dir/empty.bin": "",  # zero-byte files are files
+        "empty.txt": "", "empty.html": "", "one.txt": "1", ".well-known/security.txt": "WELL-KNOWN", ".config/app/page.html": "DOT-DIR-PAGE", "dir/empty.bin": "",  # zero-byte files are files
         "nb\u00a0sp.txt": "NBSP-NAME", "zw\u200dj.txt": "ZWJ-NAME", "ls\u2028ps.txt": "LINE-SEPARATOR-NAME", "soft\u00adhy.html": "SOFT-HYPHEN-PAGE"}  # two different files: a name is bytes, not normalised text
 OUTSIDE = {"secret.txt": "SECRET-1", "static-secret.txt": "SECRET-2", "static2/s.txt": "SECRET-3", "a.txt": "OUTER-A", "index.html": "OUTER-INDEX"}
 DIRS = {""} | {os.path.dirname(k) for k in TREE if "/" in k} | {"L" * 100}
 SEGS = ["", ".", "..", "a.txt", "dir", "dir2", "..name", "%2e%2e", "index.html", "x", "x.html", "é.txt", "static", "static2", "secret.txt", "nope",
         "index", "b.txt", ".hidden", "static-secret.txt", "sock", "v1.2", "notes.txt", "cafe\u0301.txt", "\u6587\u4ef6.txt", "\u00c7a",
-        "back\\slash.txt", "dir\\b.txt", "dir\\b", "empty.txt", "empty", "v1%2E0.txt", "%2E%2E", "a%2Etxt", "nb\u00a0sp.txt", "zw\u200dj.txt", "soft\u00adhy"]
+        "back\\slash.txt", "dir\\b.txt", "dir\\b", "empty.txt", "empty", "v1%2E0.txt", "%2E%2E", "a%2Etxt", ".well-known", "security.txt", "nb\u00a0sp.txt", "zw\u200dj.txt", "soft\u00adhy"]
 
 
 def make_special(served):
